@@ -15,6 +15,7 @@ RULE = ('one real stack (1-2 CAs) and 2-3 reference peers; a generated history o
         'inbound sessions overlapping outbound ones); after the history the full advertised concurrency is started at once (J1939-21: one transfer '
         'per (SA,DA) pair; J1939-22: 8 RTS/CTS + 4 BAM plus one call beyond each) while the peers open inbound sessions with colliding session '
         'numbers. non-trivial = at least one history step ended in a failure outcome that actually fired; distinct = distinct scenario JSON')
+FAULT_COUNTERS = {'drop (frame lost)': 'fault_drop', 'peer aborts': 'peer_aborts', 'failed outcomes fired (lost frame / abort / silent peer / no acknowledge)': 'failed_outcomes_fired', 'second call on a busy pair': 'refused_busy_pair', 'inbound sessions overlapping outbound ones': 'inbound_overlaps'}
 REQUIRED_PROBES = ['steps', 'failed_outcomes_fired', 'peer_aborts', 'refused_busy_pair', 'final_batches_ok', 'inbound_overlaps']
 PEERS = {'P1': 0x41, 'P2': 0x42, 'P3': 0x43}
 
@@ -236,6 +237,7 @@ def execute(scn, keep_log=False, hook=None):
                 viol += common.idle_violations(w, 'after the final batch: ')
             if not viol:
                 stats['final_batches_ok'] = 1
+    stats['fault_drop'] = bus.fired.get('drop', 0)
     res = {'violations': viol[:4], 'stats': dict(stats, frames=len(bus.frames)), 'nontrivial': stats['failed_outcomes_fired'] > 0,
            'digest': sim.digest(), 'sim_s': (sim.now - t0) / 1e9,
            'summary': '%s %d steps (%s), %d frames' % (st.cfg['dll'], len(scn['steps']), ','.join(x.get('outcome', '?') for x in scn['steps'][:10]), len(bus.frames))}
